@@ -806,7 +806,10 @@ def mutate(case, rnd):
 LEVEL_TEXT = ('Machine-checked proofs (Coq) about an executable model of the predicate formatters of SmodelsConvert and the predicate matchers '
               '(matchAtomArg, strtol-based match, match(Heuristic_t), matchDomHeuPred, matchEdgePred) over byte strings, of '
               'SmodelsInput::readSymbols (classification, NodeTab, SymTab, deferred heuristics, filter) and of the external value coding; '
-              'composed with C02\'s converter model into a model of the whole trip. The model is tied to the code by differential '
+              'composed with C02\'s converter model into a model of the whole trip; proved over whole converter runs: every symTab_ name is a good name and a written / pending symbol, '
+              'every written symbol is of the shape the reader theorems assume, every _heuristic target name is a written symbol; proved for one-step programs end to end '
+              '(conv_write -> read_back): exactly one heuristic per heuristic on an occurring atom with the same fields on the first symbol carrying the name, others dropped, '
+              'edges up to an injective node renaming, no helper symbol shown under filter (several steps: per-step lemma proved, composition left to the differential check). The model is tied to the code by differential '
               'correspondence (the real converter+writer+reader pipeline with a recorder at the end; direct calls of the two matchers on '
               'generated strings) and by an independent python oracle on the implementation.')
 LEVEL_NOTE = ('Trusted: Coq kernel/vm_compute, extraction+driver (cross-checked), harness, translator, python oracle, ideal sprintf, libc '
